@@ -43,7 +43,8 @@ def lead_coefficient(
         array([-4, -1,  4])
 
     """
-    poly = numpoly.aspolynomial(poly)
+    # (index-ordered indeterminates, as the monomial order refers to them)
+    poly = numpoly.align_indeterminants(poly)[0]
     out = numpy.zeros(poly.shape, dtype=poly.dtype)
     if not out.size:
         return out
